@@ -137,6 +137,28 @@ def check(ctx: Ctx) -> str:
               "get_bucket must checksum the *current* source and then load", gb.loc())
 
     bucket_key_inputs_rule(ctx, "R8")
+
+    ctx.rule("R9", "the cache directory is a path, never a pattern: no glob / fnmatch *pattern* argument in bccache is built from self.directory (clear() lists the directory and filters the names)")
+    bm = repo.module("bccache")
+    n_g = 0
+    for c in astq.calls(bm.tree):
+        f_ = astq.callee(c)
+        pat_args: list[ast.AST] = []
+        if f_ in ("glob.glob", "glob.iglob", "glob", "iglob"):
+            pat_args = list(c.args[:1]) + [k.value for k in c.keywords if k.arg == "pathname"]
+        elif f_ in ("fnmatch.filter", "fnmatch.fnmatch", "fnmatch.fnmatchcase"):
+            pat_args = list(c.args[1:2])
+        elif astq.attr_tail(c) in ("glob", "rglob") and isinstance(c.func, ast.Attribute):
+            pat_args = [c.func.value]
+        if not pat_args:
+            continue
+        n_g += 1
+        q = astq.enclosing_qual(c)
+        tainted = any("directory" in ast.unparse(a_) for a_ in pat_args)
+        ctx.check(not tainted, f"pattern:{q}:{f_}", f"bccache:{q}", f"`{ast.unparse(c)[:70]}` matches the directory as a pattern" if tainted else "pattern without the directory",
+                  f"{q} builds a glob pattern from the cache directory (`{ast.unparse(c)[:90]}`): with a directory named e.g. `bytecode[v2]` the pattern matches nothing, clear() silently removes no entry and stale bytecode keeps being served",
+                  f"{bm.rel}:{c.lineno}")
+    ctx.floor("pattern matching calls in bccache", n_g, 1)
     # a template built from cached bytecode is built like one compiled from source: same
     # arguments, in particular the loader's uptodate callable (rule owned by C25)
     from . import c25
